@@ -473,6 +473,7 @@ class ExprMixin:
             P.funcs[key] = True
             a, b = z3.Reals("a b")
             P.axioms.append(z3.ForAll([a, b], z3.Implies(a > 0, f(a, b) > 0), patterns=[f(a, b)]))
+            P.axioms.append(z3.ForAll([a, b], z3.Implies(z3.And(a >= 1, b >= 0), f(a, b) >= 1), patterns=[f(a, b)]))
         return V(REAL, f(x, y))
 
     # ---- comparisons ------------------------------------------------------------
